@@ -166,6 +166,11 @@ def c02(run):
     # must still be the canonical diagram of the function (Trace_Bdd: structure = specification's result, WF)
     checks_bdd.record_and_validate(run, 3, "uniform", 6000 if t else 1500, "xbin,xite,xnot,xquant,xmodel,xretain,xcc", "cross_env_nv3")
     checks_bdd.record_and_validate(run, 5, "random", 3000 if t else 600, "xbin,xite,xnot,xquant,xmodel,xretain", "cross_env_nv5")
+    # through the formula language: "a valid function is literally the true leaf and an unsatisfiable one literally the false
+    # leaf", every result ordered and reduced -- a sample of the quantifier / counting family of MC_Nest (Binders = 1)
+    import checks_lang
+    pq, cq = checks_lang.mc_nest(run, 1, 1 if t else 6)
+    checks_lang.replay_lang(run, pq, "formula_results", {"C01", "C02"})
     run.nontrivial = s["max_table_size"]
     run.exhaustive = True
 
